@@ -193,7 +193,7 @@ def _run_1d(case, R):
         want = drift_model + a_rep + comp
         scale = 1.0 + abs(want) + float(np.dot(np.abs(axis), np.abs(rates)))
         R.hit("mean_comparisons")
-        if abs(chain_mean - want) > 1e-9 * scale + 10 * err:
+        if not (abs(chain_mean - want) <= 1e-9 * scale + 10 * err):
             own_cells = "-own-cells" if method == "BINARYSEARCHTREEADAPTED1D" and ctor == "probstep" else ""
             R.violation(f"1d-mean-{rep}-{'fv' if fv else 'iv'}{own_cells}", f"{label} declared in {rep} (a = {a_rep!r}), {ctor} grid level {lev}, "
                         f"method {method}: chain mean per unit time = process_drift {pd!r} + sum x_k rate_k = {chain_mean!r}, but "
@@ -204,7 +204,7 @@ def _run_1d(case, R):
     bu = float(grid.middle(axis[o], axis[o + 1]))
     R.hit("diffusion_comparisons")
     if fv:
-        if abs(eq2 - sigma**2) > 1e-12 * (1 + sigma**2):
+        if not (abs(eq2 - sigma**2) <= 1e-12 * (1 + sigma**2)):
             R.violation("1d-diffusion-finite-variation", f"{label}: finite variation but equivalent diffusion^2 = {eq2!r} != sigma^2 = "
                         f"{sigma**2!r}", wit)
         central2 = None
@@ -214,7 +214,7 @@ def _run_1d(case, R):
             central2 = None
         else:
             central2, e2 = Q.integrate_xn(dens, max(bl, -1.0), min(bu, 1.0), 2, br, alpha)
-            if abs(eq2 - (sigma**2 + central2)) > 1e-7 * (sigma**2 + central2) + 10 * e2 + 1e-14:
+            if not (abs(eq2 - (sigma**2 + central2)) <= 1e-7 * (sigma**2 + central2) + 10 * e2 + 1e-14):
                 R.violation("1d-diffusion-infinite-variation", f"{label}: infinite variation: equivalent diffusion^2 = {eq2!r}, expected "
                             f"sigma^2 + second moment of the central cell = {sigma**2 + central2!r}", wit)
     # variance gap bounded by the per-cell oscillation of x^2
@@ -234,7 +234,7 @@ def _run_1d(case, R):
             c2, _ = Q.integrate_xn(dens, bl, bu, 2, br, alpha)
             bound += c2
         R.hit("variance_bound_checks")
-        if abs(chain_var - model_var) > bound * (1 + 1e-9) + 1e-9 * (1 + model_var) + 10 * e3:
+        if not (abs(chain_var - model_var) <= bound * (1 + 1e-9) + 1e-9 * (1 + model_var) + 10 * e3):
             R.violation(f"1d-variance-bound-{'fv' if fv else 'iv'}", f"{label}/{ctor} level {lev}: chain variance {chain_var!r} vs model "
                         f"{model_var!r}: gap {abs(chain_var - model_var)!r} exceeds the cell-oscillation bound {bound!r}", wit)
     if int(np.sum(rates > 0)) >= 2:
@@ -310,7 +310,7 @@ def _run_nd(case, R):
         got = float(pd[k]) + rate_x[k]
         slack = max(abs(l), abs(r)) * sum(t for j, t in enumerate(tails) if j != k)
         R.hit("nd_margin_mean_comparisons")
-        if abs(got - want) > slack + 1e-8 * (1 + abs(want) + absx[k]) + 10 * err:
+        if not (abs(got - want) <= slack + 1e-8 * (1 + abs(want) + absx[k]) + 10 * err):
             R.violation(f"nd-margin-mean-{reps[k]}", f"{label}/{ctor}: margin {k} ({W.model_label(ms)}, declared {reps[k]}): chain mean "
                         f"{got!r} vs truncated margin mean {want!r}; admissible slack (mass outside the box) {slack!r}",
                         {"model": cm, "grid": g, "margin": k})
